@@ -30,6 +30,7 @@ import (
 	v1 "sigs.k8s.io/karpenter/pkg/apis/v1"
 	"sigs.k8s.io/karpenter/pkg/controllers/node/termination/terminator"
 	"sigs.k8s.io/karpenter/pkg/test"
+	podutil "sigs.k8s.io/karpenter/pkg/utils/pod"
 
 	"verifharness/kit"
 )
@@ -440,6 +441,64 @@ func (h *hist) checkWrites(id string) {
 	}
 }
 
+// classify counts which branch of the pod predicates the real functions take for a listed pod.
+func (h *hist) classify(p *corev1.Pod) {
+	clk := h.s.clk
+	switch {
+	case podutil.IsTerminal(p):
+		h.c.Count("pod:terminal")
+	case podutil.ToleratesDisruptedNoScheduleTaint(p):
+		h.c.Count("pod:tolerates-disrupted-taint")
+	case podutil.IsOwnedByNode(p):
+		h.c.Count("pod:static")
+	case podutil.IsStuckTerminating(p, clk):
+		h.c.Count("pod:stuck-terminating")
+	case podutil.IsTerminating(p):
+		h.c.Count("pod:waiting:terminating")
+	case podutil.IsDoNotDisruptActive(p, clk, nil):
+		if p.Annotations[v1.DoNotDisruptAnnotationKey] == "true" {
+			h.c.Count("pod:waiting:do-not-disrupt-true")
+		} else if p.Status.StartTime == nil {
+			h.c.Count("pod:waiting:do-not-disrupt-duration-no-start")
+		} else {
+			h.c.Count("pod:waiting:do-not-disrupt-duration-active")
+		}
+	default:
+		if _, ok := p.Annotations[v1.DoNotDisruptAnnotationKey]; ok {
+			h.c.Count("pod:waiting:evictable:do-not-disrupt-expired-or-invalid")
+		} else {
+			h.c.Count("pod:waiting:evictable")
+		}
+	}
+	if len(p.Spec.Tolerations) > 0 && !podutil.ToleratesDisruptedNoScheduleTaint(p) {
+		h.c.Count("pod:toleration-near-miss")
+	}
+	if p.Spec.TerminationGracePeriodSeconds == nil {
+		h.c.Count("pod:grace-nil")
+	}
+	// boundary hits of the time comparisons (exact instant, 1ns either side)
+	near := func(name string, d int64) {
+		switch d {
+		case -1, 0, 1:
+			h.c.Count(fmt.Sprintf("boundary:%s:%+dns", name, d))
+		}
+	}
+	if h.dl != nil && p.Spec.TerminationGracePeriodSeconds != nil && p.DeletionTimestamp == nil {
+		near("now-vs-deadline-minus-grace", h.now-(*h.dl-*p.Spec.TerminationGracePeriodSeconds*sec))
+	}
+	if p.DeletionTimestamp != nil {
+		near("terminating-for-vs-1m", h.now-relNs(p.DeletionTimestamp.Time)-60*sec)
+		if h.dl != nil {
+			near("deletion-time-vs-deadline", relNs(p.DeletionTimestamp.Time)-*h.dl)
+		}
+	}
+	if val, ok := p.Annotations[v1.DoNotDisruptAnnotationKey]; ok && p.Status.StartTime != nil {
+		if d, err := time.ParseDuration(val); err == nil {
+			near("pod-age-vs-do-not-disrupt", h.now-relNs(p.Status.StartTime.Time)-int64(d))
+		}
+	}
+}
+
 // drain runs Terminator.Drain over the current world.
 func (h *hist) drain(listFail bool) {
 	h.setClock()
@@ -480,6 +539,7 @@ func (h *hist) drain(listFail bool) {
 	idx := make([]string, len(pods))
 	for i, p := range pods {
 		idx[i] = gZ(int64(h.idx(toModel(p))))
+		h.classify(p)
 	}
 	h.ops = append(h.ops, fmt.Sprintf("IDrain %s %s %s %s %s %s", gZ(h.now), gOptZ(h.dl), kit.GList(idx), gerr, gevs, gQueue(after)))
 	h.sum = append(h.sum, fmt.Sprintf("drain@%d dl=%s pods=%d -> %s new=%d", h.now, gOptZ(h.dl), len(pods), gerr, len(evs)))
@@ -578,6 +638,21 @@ func (h *hist) reconcile(p *podSpec, pl plan) (act string, ok bool) {
 	h.ops = append(h.ops, fmt.Sprintf("IRec %s %s %s %s %s %s %s", gZ(h.now), gZ(int64(i)), pl.api, kit.GBool(pl.nodeOK), gact, gres, gQueue(after)))
 	h.sum = append(h.sum, fmt.Sprintf("reconcile@%d p%d/u%d api=%s -> %s %s", h.now, p.Name, p.UID, pl.api, gact, gres))
 	// branch accounting
+	if t, ok := qLookup(before, podKey(obj)); ok && t != nil {
+		if d := *t - h.now; d >= -2*sec && d <= 3*sec {
+			switch {
+			case d%sec == 0:
+				h.c.Count("boundary:remaining-time:whole-second")
+			case d%sec == sec-1 || d%sec == -1:
+				h.c.Count("boundary:remaining-time:1ns-below-whole-second")
+			default:
+				h.c.Count("boundary:remaining-time:fractional")
+			}
+			if d < 0 {
+				h.c.Count("boundary:remaining-time:negative")
+			}
+		}
+	}
 	_, was := qLookup(before, podKey(obj))
 	_, still := qLookup(after, podKey(obj))
 	switch {
@@ -1009,6 +1084,14 @@ func main() {
 		}
 		runGrid(c, []variant{v}, dlSub, 90*sec+400_000_000, [2]string{"AOk", "AOk"})
 		runGrid(c, []variant{v}, dlSub, 90*sec+400_000_001, [2]string{"ANotFound", "AOther"})
+	}
+	// deletion time exactly at / 1ns around the deadline
+	for _, v := range variants {
+		if strings.HasPrefix(v.name, "terminating") {
+			for _, d := range []int64{120*sec - 1, 120*sec + 1, 150*sec - 1, 150*sec + 1, 200*sec - 1, 200 * sec, 200*sec + 1} {
+				runGrid(c, []variant{v}, i64(d), 100*sec, [2]string{"AOk", "AConflict"})
+			}
+		}
 	}
 	// (A2) pairs: tier interplay and blocking by protected pods
 	tierVs := []string{"base", "owner-ds", "critical-cluster", "critical-node-ds", "dnd-true", "dnd-1h-critical-ds", "grace-600", "terminating-beyond", "terminating-soon", "owner-node", "tol-exists-all", "phase-succeeded"}
